@@ -5,7 +5,9 @@
   also runs both on every VAL case and reports any difference (`srcDiff`).
 -/
 import JS.Py.Interp2
+import JS.Py.Interp3
 import JS.Generated.Source
+import JS.Generated.MethodSource
 namespace JS.Py
 open JS.Generated.Source
 
@@ -103,9 +105,16 @@ def evalSrc (env : Env) (impl : FmtImpl) (cfg : Cfg) : Nat → Rec
   | 0 => fun _ _ => stopG .fuel
   | n + 1 => evalStepSrc env impl cfg (evalSrc env impl cfg n)
 
+/-- the evaluator whose every layer is the INTERPRETED SOURCE of the method `iter_errors`
+    (`JS.Generated.MethodSource.src_iter_errors`); `root` is `self.schema` -/
+def evalMeth (env : Env) (impl : FmtImpl) (cfg : Cfg) (root : Json) : Nat → Rec
+  | 0 => fun _ _ => stopG .fuel
+  | n + 1 => fun inst schema =>
+      Method.run env impl cfg (evalMeth env impl cfg root n) root JS.Generated.MethodSource.src_iter_errors [inst, schema]
+
 /-- names of the translated functions (for the evidence) -/
 def translated : List String :=
   table.filterMap fun p => match p.2 with | .body _ => some p.1 | .unsupported _ => none
--- (the functions of the second subset are `src2_*`: anyOf, oneOf, properties_draft3, type_draft3)
+-- (the functions of the second subset are `src2_*`: anyOf, oneOf, properties_draft3, type_draft3, ref)
 
 end JS.Py
